@@ -975,7 +975,7 @@ Qed.
 Lemma kmoving_accept rof e :
   x_err (fst (kmoving_validate rof e)) = false ->
   let s := snd (kmoving_validate rof e) in
-  Qle_bool Q0 (kx_k s) = true /\ (kx_changing s = true -> kx_nsteps s <> 0).
+  Qle_bool Q0 (kx_k s) = true /\ (kx_changing s = true -> kx_nsteps s <> 0) /\ Qle_bool Q0 (kx_exp s) = true.
 Proof.
   unfold kmoving_validate, Qltb.
   destruct (ereal e "forceConstant" (1 # 1)) as [k p0].
@@ -983,16 +983,18 @@ Proof.
   destruct (eint TStep e "targetNumSteps" 0) as [ns p2].
   destruct (eint TInt e "targetNumStages" 0) as [ng p3].
   destruct (getV (elist e "lambdaSchedule") []) as [sched esch].
+  destruct (ereal e "lambdaExponent" (1 # 1)) as [lx p4].
   assert (Hk : x_err (flag_input (p0 || negb (Qle_bool Q0 k)) no_errs) = false -> Qle_bool Q0 k = true).
   { intros H. rewrite x_err_flag_input in H. cbn [x_err no_errs] in H. destruct (Qle_bool Q0 k); [reflexivity | orb_simpl H; discriminate H]. }
   destruct (egiven e "targetForceConstant" && eflag e "decoupling" false) eqn:E1; [cbn [fst]; rewrite x_err_flag_input; discriminate|].
   destruct (negb (eflag e "decoupling" false || egiven e "targetForceConstant")) eqn:E2.
-  - cbn [fst snd kx_k kx_changing]. rewrite x_err_flag_input. intro H. apply orb_false_iff in H. destruct H as [_ H].
-    split; [apply (Hk H) | discriminate].
+  - cbn [fst snd kx_k kx_changing kx_exp]. rewrite x_err_flag_input. intro H. apply orb_false_iff in H. destruct H as [_ H].
+    split; [apply (Hk H) | split; [discriminate | reflexivity]].
   - destruct (ns =? 0) eqn:En; [cbn [fst]; rewrite x_err_flag_input; discriminate|].
     destruct (elist_given e "lambdaSchedule" && (0 <? ng)) eqn:E3; [cbn [fst]; rewrite x_err_flag_input; discriminate|].
-    cbn [fst snd kx_k kx_changing kx_nsteps]. rewrite x_err_flag_input. intro H. apply orb_false_iff in H. destruct H as [_ H].
-    split; [apply (Hk H) | intros _; b2p; assumption].
+    cbn [fst snd kx_k kx_changing kx_nsteps kx_exp]. rewrite x_err_flag_input. intro H. apply orb_false_iff in H. destruct H as [Hx H].
+    split; [apply (Hk H) | split; [intros _; b2p; assumption |]].
+    destruct (Qle_bool Q0 lx); [reflexivity | orb_simpl Hx; discriminate Hx].
 Qed.
 
 Lemma getV_presized_length n ts v e : (0 < n)%nat -> getV (Some ts) (repeat Q0 n) = (v, e) -> List.length v = n.
